@@ -96,6 +96,9 @@ func gen(r *sim.Rng, tier string) *sim.Case {
 	for _, s := range []string{"Iter", "Range", "All"} {
 		c.Ops = append(c.Ops, sim.Op{Op: "Enum", S: s})
 	}
+	if r.Pct(20) {
+		c.Params["twin"] = 1 // a second bitmap is used alternately
+	}
 	c.EnvSeed = r.U64() >> 12
 	return c
 }
@@ -149,12 +152,20 @@ func towerWords(dist int, seed uint64) func() uint64 {
 
 const name = "setz.(*RoaringBitmap)"
 
+// twinMask moves a value to the neighbouring bucket and to other low bits.
+const twinMask = 0x00010005
+
 func exec(c *sim.Case, out *sim.WorkerOut) (*sim.Violation, bool) {
 	smrand.Word = towerWords(c.P("dist"), c.EnvSeed)
 	smrand.Words = 0
 	stime.Clock = int64(c.EnvSeed % 1000000007)
 	dg := engc.NewDigest()
 	var rb setz.RoaringBitmap // usable from its zero value
+	// the twin: a second bitmap that receives the image of every Add/Remove under x -> x^twinMask,
+	// alternately with the first one.  Two bitmaps share nothing, so the twin must hold exactly the
+	// image of the first (package-level pools, caches or scratch buffers would couple them).
+	var tw setz.RoaringBitmap
+	twin := c.P("twin") == 1
 	md := map[uint32]struct{}{}
 	perBucket := map[uint32]int{}
 	emptied := map[uint32]bool{}
@@ -167,6 +178,11 @@ func exec(c *sim.Case, out *sim.WorkerOut) (*sim.Violation, bool) {
 		_, present := md[x]
 		if got == present {
 			return mism("Add", "op %d Add(%#x) = %v, already member = %v", idx, x, got, present)
+		}
+		if twin {
+			if g2 := tw.Add(x ^ twinMask); g2 != got {
+				return mism("Add", "op %d, twin bitmap used alternately with the first: Add(%#x) = %v, already member = %v", idx, x^twinMask, g2, present)
+			}
 		}
 		if !present {
 			md[x] = struct{}{}
@@ -186,6 +202,11 @@ func exec(c *sim.Case, out *sim.WorkerOut) (*sim.Violation, bool) {
 		_, present := md[x]
 		if got != present {
 			return mism("Remove", "op %d Remove(%#x) = %v, member = %v", idx, x, got, present)
+		}
+		if twin {
+			if g2 := tw.Remove(x ^ twinMask); g2 != got {
+				return mism("Remove", "op %d, twin bitmap used alternately with the first: Remove(%#x) = %v, member = %v", idx, x^twinMask, g2, present)
+			}
 		}
 		if present {
 			delete(md, x)
@@ -255,6 +276,17 @@ func exec(c *sim.Case, out *sim.WorkerOut) (*sim.Violation, bool) {
 				}
 			case "Enum":
 				v = enum(&rb, md, op, idx, probes)
+				if v == nil && twin {
+					img := make(map[uint32]struct{}, len(md))
+					for x := range md {
+						img[x^twinMask] = struct{}{}
+					}
+					if n := tw.Len(); n != len(img) {
+						v = mism("Len", "op %d, twin bitmap: Len() = %d, cardinality %d", idx, n, len(img))
+					} else if v = enum(&tw, img, op, idx, map[string]int{}); v != nil {
+						v.Detail += " [twin bitmap used alternately with the first]"
+					}
+				}
 			}
 		})
 		if pv != nil {
@@ -267,6 +299,9 @@ func exec(c *sim.Case, out *sim.WorkerOut) (*sim.Violation, bool) {
 	}
 	for k, n := range probes {
 		out.Probes[k] += n
+	}
+	if twin {
+		out.Probes["twin_instance_used_alternately"]++
 	}
 	out.Faults["tower_word_drawn"] += smrand.Words
 	if c.P("dist") != 0 {
